@@ -25,16 +25,24 @@ CLAIMED = {
     'C12': ('frexp/ldexp/scalbn/ilogb/logb/frac/fmax/fmin/fdim', '§7 C12'),
     'C13': ('fpclassify/isnan/isinf/isfinite/isnormal/signbit and the quiet comparisons', '§7 C13'),
 }
-PENDING = {
-    'C05': 'check not registered yet in this commit (integer division harness being budgeted)',
-    'C14': 'check not registered yet in this commit (scalar Denominator harness in progress)',
-    'C15': 'check not registered yet in this commit (vector Denominator harness in progress)',
-    'C16': 'check not registered yet in this commit (scalar/lane equivalence harness in progress)',
-    'C17': 'check not registered yet in this commit (conversion harness in progress)',
-    'C18': 'check not registered yet in this commit (allocator harness in progress)',
-    'C19': 'check not registered yet in this commit; only the macro-logic clauses are decidable by a solver (see DESIGN.md §10)',
-    'C20': 'check not registered yet in this commit (prefetch harness in progress)',
-}
+CLAIMED.update({
+    'C05': ('div / % on every integer vector type: 8-bit lanes and code that really divides against bvudiv/bvsdiv (UF congruence); 32/64-bit long-division '
+            'emulations against the textbook restoring division REF (proof by generalisation at the early exits); 16-bit float-reciprocal routes and the AVX-512 '
+            'divpd route are attempted and reported undecided when the solvers do not finish; no scalar division by a possibly-zero lane is executed', '§7 C05'),
+    'C14': ('scalar Denominator<T>: numerator fully symbolic; divisor symbolic for 8-bit types, enumerated lattice otherwise; signed 32/64-bit full-range queries are '
+            'beyond every back end and are decided for all numerators within 2^12 of 0, MIN, MAX (stated bound)', '§7 C14'),
+    'C15': ('vector Denominators incl. the broadcast constructor, different lattice divisors per lane', '§7 C15'),
+    'C16': ('every scalar overload (and the mixed-sign cmp_*) against the same oracle the vector lanes are decided against, under every scalar instruction-set selection', '§7 C16'),
+    'C17': ('convert<>, converting constructors, mask conversions and bit_cast for every pair found in the headers', '§7 C17'),
+    'C18': ('Aligned_allocator: one symbolic allocate/havoc/deallocate step per (T, A, implementation) with libc as contract-level stubs', '§7 C18'),
+    'C20': ('prefetch_read/prefetch_write: arbitrary pointer, n up to 4 pages + 1 line, no access other than PREFETCH, termination within the unwinding bound', '§7 C20'),
+})
+PENDING = {}
+C19_TEXT = ('PARTIAL claim, decided by SAT over a symbolic model of the preprocessor conditionals (Capabilities/Detect/Verify/Sizes/Vectors include blocks) for all 2^22 '
+            'subsets of feature macros: one macro implies what documentation and compiler both imply; no Verify static_assert reachable with matching flags; '
+            'AVEL_AUTO_DETECT gives the same vector headers as naming the enabled macros; headers exist exactly under their documented macro; natural/max width '
+            'aliases name provided types. The clauses "every configuration compiles", "trivially copyable / sizeof", "every operation declared, defined and linkable" '
+            'have no input space for a solver and are NOT claimed (DESIGN.md section 10).')
 
 def main():
     checks = []
@@ -45,19 +53,31 @@ def main():
             'quick_cmd': 'bin/avelcheck --property %s --tier quick' % pid,
             'thorough_cmd': 'bin/avelcheck --property %s --tier thorough' % pid,
             'evidence_file': 'evidence/%s.json' % pid,
-            'replay_cmd_template': 'bin/avelcheck --replay {path}',
+            'replay_cmd_template': 'sh {path}',
             'engine': 'avelverif',
             'level_claimed': {'category': 'model_checking', 'text': LEVEL_TEXT + 'Scope here: ' + what + '.', 'design_ref': ref},
             'level_note': NOTE,
             'technique': 'solver-based bounded symbolic checking of clang LLVM IR (own IR->SMT executor; z3 + cvc5 int-blast + kissat), native replay of counterexamples',
         })
+    checks.append({
+        'property_id': 'C19',
+        'quick_cmd': 'bin/avelcheck --property C19 --tier quick',
+        'thorough_cmd': 'bin/avelcheck --property C19 --tier thorough',
+        'evidence_file': 'evidence/C19.json',
+        'replay_cmd_template': 'sh {path}',
+        'engine': 'avelverif',
+        'level_claimed': {'category': 'other', 'text': C19_TEXT, 'design_ref': '§7 C19, §10'},
+        'level_note': 'Trusted: the preprocessor-conditional extractor in avelverif/macrologic.py, clang++-14 predefines as the compiler model (additivity spot-checked each run), z3.',
+        'technique': 'SAT/SMT over a symbolic model of the preprocessor conditionals (all macro subsets); native confirmation by compiling a translation unit',
+    })
+    checks.sort(key=lambda c: c['property_id'])
     m = {
         'version': 1,
         'setup_cmd': 'python3-vt -m compileall -q avelverif && python3-vt -m avelverif.selftest',
         'hooks': {'guard': 'AVEL_VERIF', 'enable': 'no hooks are needed: wrappers use the public API only (nothing in /repo is guarded by AVEL_VERIF)',
-                  'baseline_off_cmd': 'cd /repo && cmake -G Ninja -B _build >/dev/null && cmake --build _build >/dev/null && ctest --test-dir _build -j8 --timeout 900',
+                  'baseline_off_cmd': '/verif/tools/baseline.sh',
                   'source_commits': [], 'add_only': True},
-        'engines': [{'name': 'avelverif', 'path': 'avelverif/', 'serves_properties': sorted(CLAIMED),
+        'engines': [{'name': 'avelverif', 'path': 'avelverif/', 'serves_properties': sorted(list(CLAIMED) + ['C19']),
                      'kind_free_text': 'LLVM-IR symbolic executor over z3 terms with x86 intrinsic models, oracle library, solver portfolio, native replay'}],
         'checks': checks,
         'notes': 'Every check recompiles its wrappers from /repo/include on each run. Known findings: known_findings.json. See DESIGN.md.',
